@@ -125,6 +125,8 @@ class Ctx:
         unlisted = [o for o in viol if o.full_key() not in known_keys]
         listed = [o for o in viol if o.full_key() in known_keys]
         replay_dir = os.path.join(VERIF, "evidence", "replay")
+        if os.environ.get("WXV_EVIDENCE"):      # runs against scratch copies keep their replay files next to their evidence
+            replay_dir = os.path.join(os.path.dirname(os.path.abspath(os.environ["WXV_EVIDENCE"])), "replay")
         for o in listed:
             print("KNOWN-FINDING: property=%s %s %s" % (self.prop, o.full_key(), known_keys[o.full_key()].get("what", o.what)))
         for o in unlisted:
